@@ -9,6 +9,7 @@ import (
 	"strings"
 	"sync"
 	"sync/atomic"
+	"syscall"
 	"time"
 
 	"github.com/hashicorp/go-hclog"
@@ -30,10 +31,10 @@ type c08Stream struct{ prop string }
 func (s c08Stream) Name() string             { return "c08" }
 func (c08Stream) CaseTimeout() time.Duration { return 90 * time.Second }
 func (c08Stream) Rule() string {
-	return "K connections (1..12; plain / TLS / StartTLS) opened in two waves (reconnects after earlier ones closed), each tagged by the client, each with an in-flight state (no handler / two handlers blocked until after the ending / two handlers writing large results / two handlers just spawned when the ending arrives in the same TCP segment / one of two handlers panicking on its request goroutine) and an ending (client close, RST, Unbind, malformed frame, unsupported operation, mid-frame disconnect, read timeout, recovered panic in an inline handler, server Stop), many ending concurrently; plus (from 40 cases up) one churn scenario: an early connection stays open while 70000 short connections come and go, then 40 more bind; oracle: exactly one OnClose per accepted connection carrying the ConnectionID its requests saw, after the exit of every handler of that connection; the client sees the socket closed; all ConnectionIDs positive, stable and pairwise distinct over the server's life; goroutine and descriptor counts return to the baseline; trace replayed through the connection automaton; non-trivial = at least one connection with handlers in flight at its ending, distinct by scenario"
+	return "K connections (1..12; plain / TLS / StartTLS) opened in two waves (reconnects after earlier ones closed), each tagged by the client, each with an in-flight state (no handler / two handlers blocked until after the ending / two handlers writing large results / two handlers just spawned when the ending arrives in the same TCP segment / one of two handlers panicking on its request goroutine) and an ending (client close, RST, Unbind, malformed frame, unsupported operation, mid-frame disconnect, read timeout, recovered panic in an inline handler, server Stop, a StartTLS request followed by bytes that are no TLS handshake), many ending concurrently; plus (from 40 cases up) one churn scenario: an early connection stays open while 70000 short connections come and go (with a moment of descriptor exhaustion half way), then 40 more bind; oracle: exactly one OnClose per accepted connection carrying the ConnectionID its requests saw, after the exit of every handler of that connection; the client sees the socket closed, but never while handlers of that connection are still blocked; all ConnectionIDs positive, stable and pairwise distinct over the server's life; goroutine and descriptor counts return to the baseline; trace replayed through the connection automaton; non-trivial = at least one connection with handlers in flight at its ending, distinct by scenario"
 }
 
-var c08Endings = []string{"close", "rst", "unbind", "malformed", "unsupported", "midframe", "timeout", "panic", "stop"}
+var c08Endings = []string{"close", "rst", "unbind", "malformed", "unsupported", "midframe", "timeout", "panic", "stop", "starttlsfail"}
 
 func (c08Stream) Generate(rng *rand.Rand, n int, thorough bool) []Case {
 	var cs []Case
@@ -108,6 +109,27 @@ func c08Churn(total int) string {
 	defer first.close()
 	opened := int64(0)
 	for i := 0; i < total; i++ {
+		if i == total/2 {
+			// descriptor exhaustion for a moment: Accept fails and is retried; numbering must go on, not start over
+			var lim syscall.Rlimit
+			_ = syscall.Getrlimit(syscall.RLIMIT_NOFILE, &lim)
+			old := lim
+			lim.Cur = uint64(countFDs() + 4)
+			_ = syscall.Setrlimit(syscall.RLIMIT_NOFILE, &lim)
+			var hold []net.Conn
+			for j := 0; j < 10; j++ {
+				if c, err := net.DialTimeout("tcp", addr, time.Second); err == nil {
+					hold = append(hold, c)
+				}
+			}
+			time.Sleep(40 * time.Millisecond)
+			_ = syscall.Setrlimit(syscall.RLIMIT_NOFILE, &old)
+			for _, c := range hold {
+				c.Close()
+			}
+			opened += int64(len(hold))
+			time.Sleep(40 * time.Millisecond)
+		}
 		for opened-atomic.LoadInt64(&closed) > 200 {
 			time.Sleep(50 * time.Microsecond) // do not outrun the accept loop
 		}
@@ -230,9 +252,12 @@ func (c08Stream) Impl(c Case) string {
 			if inflight == "blocked" {
 				<-released
 			} else if inflight == "writing" {
-				for i := 0; i < 50; i++ {
+				// a handler that streams entries and (as handlers do) notices a dead connection only after a few
+				// more writes
+				failed := 0
+				for i := 0; i < 50 && failed < 4; i++ {
 					if err := w.Write(r.NewSearchResponseEntry(fmt.Sprintf("e%d", i), gldap.WithAttributes(map[string][]string{"p": {payload}}))); err != nil {
-						return
+						failed++
 					}
 				}
 			}
@@ -283,7 +308,7 @@ func (c08Stream) Impl(c Case) string {
 			tag := fmt.Sprintf("cn=client%d", first+i)
 			e := ending
 			if e == "mixed" {
-				e = []string{"close", "rst", "unbind", "malformed", "unsupported", "midframe", "panic"}[rng.Intn(7)]
+				e = []string{"close", "rst", "unbind", "malformed", "unsupported", "midframe", "panic", "starttlsfail"}[rng.Intn(8)]
 			}
 			wave = append(wave, cli{cl, tag, e})
 			buf := Seq(Int(2, 1), C(1, 0, Int(2, 3), Oct(tag), P(2, 0, []byte("pw")))).Ser()
@@ -309,6 +334,11 @@ func (c08Stream) Impl(c Case) string {
 					buf = append(buf, f[:len(f)/2]...)
 				case "panic":
 					buf = append(buf, Seq(Int(2, 96), P(1, 2, nil)).Ser()...)
+				case "starttlsfail":
+					if mode == "plain" {
+						buf = append(buf, opFrame("starttls", 95)...)
+						buf = append(buf, []byte("this is not a TLS ClientHello\r\n")...)
+					}
 				}
 				if err := cl.send(buf); err != nil {
 					fail("harness-error send: %v", err)
@@ -361,6 +391,12 @@ func (c08Stream) Impl(c Case) string {
 					_ = x.c.send(f[:len(f)/2])
 				case "panic":
 					_ = x.c.send(Seq(Int(2, 96), P(1, 2, nil)).Ser())
+				case "starttlsfail":
+					// only a plain connection can ask for StartTLS; elsewhere this ending is a plain client close
+					if mode == "plain" {
+						_ = x.c.send(opFrame("starttls", 95))
+						_ = x.c.send([]byte("this is not a TLS ClientHello\r\n"))
+					}
 				}
 			}(x)
 		}
@@ -381,8 +417,38 @@ func (c08Stream) Impl(c Case) string {
 			}
 		}
 	}
+	// while handlers are still blocked the server must not have closed any socket whose ending was the
+	// server's to perform ("only after every handler still running for that connection has returned")
+	earlyEOF := func(ws []cli) {
+		if inflight != "blocked" {
+			return
+		}
+		select {
+		case <-released:
+			return
+		default:
+		}
+		time.Sleep(30 * time.Millisecond)
+		for _, x := range ws {
+			switch x.ending {
+			case "unbind", "malformed", "unsupported", "panic", "starttlsfail":
+				for {
+					_, err := x.c.readFrame(20 * time.Millisecond)
+					if err == nil {
+						continue // a response that was already on its way
+					}
+					if ne, ok := err.(net.Error); ok && ne.Timeout() {
+						break
+					}
+					fail("connection %s (%s): the socket was closed while its handlers were still running", x.tag, x.ending)
+					break
+				}
+			}
+		}
+	}
 	half := (k + 1) / 2
 	runWave(0, half)
+	earlyEOF(wave)
 	time.Sleep(20 * time.Millisecond)
 	first := wave
 	if inflight == "blocked" {
@@ -404,6 +470,8 @@ func (c08Stream) Impl(c Case) string {
 	// every client must observe its socket closed by the server (or have closed it itself)
 	for _, x := range all {
 		switch x.ending {
+		case "starttlsfail":
+			x.c.close()
 		case "unbind", "malformed", "unsupported", "panic", "timeout":
 			deadline := time.Now().Add(10 * time.Second)
 			for {
